@@ -746,6 +746,9 @@ def directed_cases() -> list:
         # names on aliased values (known: raise)
         (_p(["vec"], [True], [L("input", 0)], "single"), {"input_names": ["arg_a"], "output_names": ["res_0"]}),
         (_p(["vec"], [True], [L("scale", 0), L("dup", of=0)]), {"output_names": ["res_0", "res_1"]}),
+        (_p(["vec"], [True], [L("input", 0), L("scale", 0)]), {"output_names": ["res_0", "res_1"]}),
+        # complex result with the NCHW output flag (known: trailing pair dimension lost)
+        (_p(["img"], [True], [L("complex", 0)], "single"), {"outputs_as_nchw": [0]}),
         # all result classes, both precisions, nested result
         (_p(["vec", "int", "bool"], [True, True, True],
             [L("cmp", 0), L("cast_i32", 0), L("cast_i8", 0), L("complex", 0), L("cast_f16", 0), L("scale", 1),
@@ -905,7 +908,8 @@ def corr_programs(chk: Check, rng: common.Rng, n: int, batch: Batch) -> dict:
     chk.add("traces_validated_against_impl", len(lines))
     stats["patterns"] = seen_patterns
     stats["prediction_disagreements"] = 0
-    chk.info("programs", stats)
+    chk.info("program_stats", stats)
+    chk.info("programs", stats["programs"])
     return {"unlisted": unlisted, "disagreements": disagreements}
 
 
@@ -963,16 +967,21 @@ def run(chk: Check) -> None:
     chk.add("disagreements_checked", len(bad) + len(res["disagreements"]))
 
     broken = (not proved) or any(drift.values())
-    if (broken or bad or res["disagreements"]) and unlisted == 0:
+    if broken:
         chk.violation({"broken_obligations": getattr(chk, "broken", []),
                        "table_rows_outside_reference": {k: v[:20] for k, v in drift.items()},
-                       "helper_disagreements": bad[:10],
-                       "input_prediction_disagreements": res["disagreements"][:10],
                        "build_log_tail": getattr(chk, "build_log", "")[-2000:],
-                       "note": "the live code left the proven interface model (table obligation or correspondence) but "
-                               "no export deviating from the callable's signature was found among the generated "
-                               "programs"},
-                      name="model-left", no_failing_input=True)
+                       "unlisted_findings_in_this_run": unlisted,
+                       "note": "a live decision table (dtype policy / output Cast decision / always-keep rule) left the "
+                               "proven reference; the generated programs are the search for an export that shows it"},
+                      name="table-left-reference", no_failing_input=(unlisted == 0))
+    if (bad or res["disagreements"]) and unlisted == 0:
+        chk.violation({"helper_disagreements": bad[:10],
+                       "input_prediction_disagreements": res["disagreements"][:10],
+                       "note": "a real helper (prune / resolve / rename / materialize) or the real input binding "
+                               "disagrees with the interface model, but no export deviating from the callable's "
+                               "signature was found among the generated programs"},
+                      name="correspondence", no_failing_input=True)
     chk.assumptions += [
         "jax.eval_shape under the export's x64 mode is the callable's signature",
         "an output that IS an input (or the same value returned twice) may repeat a name unless output_names are given",
@@ -981,7 +990,7 @@ def run(chk: Check) -> None:
     ]
     chk.coverage["rule"] = (
         "tables: complete finite domains (exhaustive). Helper correspondences: seeded small graphs / name lists "
-        "(non-trivial = something unused / a request present). Programs: 15 directed cases + seeded programs "
+        "(non-trivial = something unused / a request present). Programs: 17 directed cases + seeded programs "
         "(1-3 inputs of 9 kinds, used/unused, 1-4 result leaves of 14 kinds incl. duplicates, inputs, constants, "
         "complex; 5 result-tree shapes) x configurations (precision, NCHW in/out, valid/invalid input/output names); "
         "every case is distinct by its full description")
